@@ -537,8 +537,12 @@ def check_who_may_set(ctx, tus):
                             'the OpenMP directive `#pragma omp %s` carries a num_threads clause: it overrides the limit set by '
                             'initTaskingSystem (omp_set_num_threads), so parallel_for can run on more threads than configured'
                             % sd.get('directive'), 'omp-num_threads-clause')
-                elif x.get('kind') in ('CallExpr',) and sd.get('q') in ('omp_set_num_threads', 'omp_set_dynamic', 'omp_set_nested',
-                                                                         'omp_set_max_active_levels'):
+                elif x.get('kind') in ('CallExpr',) and sd.get('q') in ('omp_set_dynamic', 'omp_set_nested', 'omp_set_max_active_levels'):
+                    if outside:
+                        ctx.undecided(R6, '%s in %s [%s]' % (sd.get('q'), fname, tag), '%s() changes the OpenMP execution mode outside %s; '
+                                      'its effect on the team size is not modelled' % (sd.get('q'), INIT_FILE), tu.loc(x))
+                    continue
+                elif x.get('kind') in ('CallExpr',) and sd.get('q') == 'omp_set_num_threads':
                     site = ('omp-setter', outside,
                             '%s() is called outside %s: the configured thread limit is changed behind initTaskingSystem' % (sd.get('q'), INIT_FILE),
                             'thread-count-set-elsewhere')
@@ -602,8 +606,11 @@ def check_no_gap(ctx, tu, tag):
             name = sd.get('q', '').split('::')[-1]
             args = [a for a in args if a.get('kind') != 'CXXDefaultArgExpr']
             if obj is not None and is_global_handle(obj):
-                empties = (name == 'release') or (name == 'reset' and (not args or tu.strip(args[0], casts=True).get('kind') == 'CXXNullPtrLiteralExpr')) \
-                    or (name == 'operator=' and args and tu.strip(args[0], casts=True).get('kind') == 'CXXNullPtrLiteralExpr')
+                a0 = tu.strip(args[0], casts=True) if args else None
+                empty_ctor = a0 is not None and a0.get('kind') in ('CXXConstructExpr', 'CXXTemporaryObjectExpr', 'InitListExpr') \
+                    and not [k_ for k_ in tu.kids(a0) if k_.get('kind') != 'CXXDefaultArgExpr']
+                empties = (name == 'release') or (name == 'reset' and (not args or a0.get('kind') == 'CXXNullPtrLiteralExpr')) \
+                    or (name == 'operator=' and args and (a0.get('kind') == 'CXXNullPtrLiteralExpr' or empty_ctor))
                 if empties:
                     return [x['id']]
         creates = (k == 'CXXNewExpr' and 'tasking_system_handle' in sd.get('aty', '')) or \
@@ -614,6 +621,11 @@ def check_no_gap(ctx, tu, tag):
 
     g.explore([None], transfer)
     inst = 'initTaskingSystem [%s]' % tag
+    if found and tag != 'TBB':
+        # under OpenMP / internal / debug the handle owns no limit object: emptying it early removes no limit
+        ctx.ok(R7, inst, 'handle emptied before re-creation, but under this backend the handle owns no limit object (only '
+               'numTaskingThreads() is transiently 0)', tu.fn_loc(f), nontrivial=False)
+        return 1
     if found:
         x, eid = found[0]
         e = tu.node(eid)
@@ -662,7 +674,13 @@ def run(ctx):
             n1 += run_config(ctx, cfg, group, cfg + vt)
         n5 += check_enki(ctx, tus[base + 5], 'INTERNAL' + vt)
     pf = ctx.front.parse_many([dict(unit=PF_DRIVER, config=c) for c in ('OMP', 'TBB')])
-    check_who_may_set(ctx, [(pf[0], 'OMP'), (pf[1], 'TBB'), (tus[0], 'TBB lib'), (tus[1], 'OMP lib')])
+    scan = [(pf[0], 'OMP'), (pf[1], 'TBB'), (tus[0], 'TBB lib'), (tus[1], 'OMP lib')]
+    if ctx.tier == 'thorough':
+        libs = [u for u in ctx.front.library_sources() if u != UNIT]
+        for cfgname in ('TBB', 'OMP'):
+            for u, t in zip(libs, ctx.front.parse_many([dict(unit=u, config=cfgname, extra=ND) for u in libs])):
+                scan.append((t, '%s %s' % (cfgname, u.split('/')[-1])))
+    check_who_may_set(ctx, scan)
     n7 = 0
     for ci, cfg in enumerate(('TBB', 'OMP', 'INTERNAL', 'DEBUG')):
         n7 += check_no_gap(ctx, tus[ci], cfg)
